@@ -82,6 +82,17 @@ func c14(c *Ctx) {
 			class = "tall" // >= 1000 vectors: clustered index
 		}
 		b := vecBatch(rng, class, "")
+		if class == "tall" {
+			// vector counts next to 1000, where the index class switches
+			if target := []int{1000, 0, 1001, 999}[(i/tallEvery)%4]; target > 0 {
+				for _, f := range model.VecPool {
+					if model.TrimVectors([]*model.Batch{b}, f, func(int, int) bool { return true }, target) {
+						c.R.Inc(fmt.Sprintf("builds_with_%d_vectors", target), 1)
+						break
+					}
+				}
+			}
+		}
 		m := model.Build(b)
 		mode := modeFor(i, rng)
 		id := fmt.Sprintf("v%d", i)
@@ -426,12 +437,25 @@ func c16run(c *Ctx, id, path, field string, vm *model.VecModel, m *model.Seg, se
 				r.Fail("engine-misuse", "%s: %s", tag, v)
 			}
 		}
+		// segment-close event: in half of the histories that end with a handle
+		// still open, the segment is closed first and the handle afterwards
+		sum, stillOpen := 0, hs[0] != nil || hs[1] != nil
+		for _, e := range seq {
+			sum += e
+		}
+		if stillOpen && sum%2 == 1 {
+			seg.Close()
+			seg = nil
+			r.Inc("c16_segment_closed_before_handles", 1)
+		}
 		for _, h := range hs {
 			if h != nil {
 				h.idx.Close()
 			}
 		}
-		seg.Close()
+		if seg != nil {
+			seg.Close()
+		}
 	})
 	engineQuiescent(c, id)
 }
@@ -439,7 +463,7 @@ func c16run(c *Ctx, id, path, field string, vm *model.VecModel, m *model.Seg, se
 // C16 part B: concurrent searchers with the expiry monitor running.
 func c16stress(c *Ctx) {
 	zap.VerifSetVecMonitorFreq(time.Millisecond)
-	rounds := c.N(24, 240)
+	rounds := c.N(60, 240)
 	for i := 0; i < rounds; i++ {
 		if !c.Mine(i) {
 			continue
